@@ -28,17 +28,21 @@ theorem C03_pubrec (d : SessionData) (r : Runtime) (id : Nat) (rs : ReasonIn) :
       if d.awaits id .pubRec then
         if !reasonSuccess rs.rc then (d.acked id .pubRec, quotaInc r, .error (.peerRejected rs.rc))
         else if r.packetTooLarge 5 then (d.acked id .pubRec, r, .error .packetTooLarge)
-        else if d.outbound.release.length < MAX_PENDING_RELEASE then ((d.acked id .pubRec).withRelease id, r, .ok false)
+        else if d.outbound.release.length < MAX_PENDING_RELEASE then
+          ((d.acked id .pubRec).withRelease id (d.outbound.ackedSer id .pubRec), r, .ok false)
         else (d.acked id .pubRec, r, .error .inflightExhausted)
       else if d.outbound.hasPendingRelease id && !reasonSuccess rs.rc then (d, r, .error (.peerRejected rs.rc))
       else (d, r, .ok false) :=
   handlePacket_pubRec d r id rs
 
-/-- `queue_release` fails exactly when the release queue is full, and otherwise appends at the end. -/
-theorem C03_queueRelease (o : Outbound) (id rc : Nat) :
-    o.queueRelease id rc = if o.release.length < MAX_PENDING_RELEASE then
-      some { o with release := o.release ++ [{ id := id, rc := rc, state := .write 0 }] } else none :=
-  queueRelease_eq o id rc
+/-- `queue_release` fails exactly when the release queue is full, and otherwise appends at the end.
+(`ps`, the entry's `rser`/`pser` and the counter `nextRser` are ghost: the serial of the new release
+entry, and the serial of the retained PUBLISH it continues.) -/
+theorem C03_queueRelease (o : Outbound) (id rc ps : Nat) :
+    o.queueRelease id rc ps = if o.release.length < MAX_PENDING_RELEASE then
+      some { o with release := o.release ++ [{ id := id, rc := rc, state := .write 0, rser := o.nextRser, pser := ps }],
+                    nextRser := o.nextRser + 1 } else none :=
+  queueRelease_eq o id rc ps
 
 /-- **Successful PUBREC that finds its PUBLISH** (release queue not full, PUBREL within the broker's
 packet size limit): in this one step the retained PUBLISH is removed — exactly the first retained entry
@@ -50,20 +54,24 @@ theorem C03_pubrec_success (d : SessionData) (r : Runtime) (id : Nat) (rs : Reas
     (hsz : r.packetTooLarge 5 = false) (hcap : d.outbound.release.length < MAX_PENDING_RELEASE) :
     let d' := (handlePacket d r (.pubRec id rs)).1
     (handlePacket d r (.pubRec id rs)).2 = (r, .ok false) ∧
-    d'.outbound.release = d.outbound.release ++ [{ id := id, rc := RC_Success, state := .write 0 }] ∧
+    d'.outbound.release = d.outbound.release ++
+      [{ id := id, rc := RC_Success, state := .write 0, rser := d.outbound.nextRser, pser := d.outbound.ackedSer id .pubRec }] ∧
     d'.outbound.control = d.outbound.control ∧
     ∃ l₁ e l₂, d.outbound.retained = l₁ ++ e :: l₂ ∧ (∀ x ∈ l₁, ackPred d.outbound id .pubRec x = false) ∧
       e.id = id ∧ AckKind.pubRec.acknowledges (d.outbound.headerAt e.offset) = true ∧
       d'.outbound.keys = (l₁ ++ l₂).map RetainedPacket.key := by
   intro d'
-  have he : handlePacket d r (.pubRec id rs) = ((d.acked id .pubRec).withRelease id, r, .ok false) := by
+  have he : handlePacket d r (.pubRec id rs) =
+      ((d.acked id .pubRec).withRelease id (d.outbound.ackedSer id .pubRec), r, .ok false) := by
     rw [C03_pubrec]; simp [hfound, hok, hsz, hcap]
   obtain ⟨f1, f2, f3, _⟩ := acked_frame d id .pubRec
   obtain ⟨l₁, e, l₂, e1, e2, e3, e4⟩ := removeFirst_split hfound
   simp only [ackPred, Bool.and_eq_true, beq_iff_eq] at e3
   refine ⟨by rw [he], ?_, ?_, l₁, e, l₂, e1, e2, e3.1, e3.2, ?_⟩
   · show (handlePacket d r (.pubRec id rs)).1.outbound.release = _
-    rw [he]; simp only [SessionData.withRelease, f2]
+    rw [he]
+    have hn : (d.acked id .pubRec).outbound.nextRser = d.outbound.nextRser := ackPacket_nextRser _ _ _
+    simp only [SessionData.withRelease, f2, hn]
   · show (handlePacket d r (.pubRec id rs)).1.outbound.control = _
     rw [he]; simp only [SessionData.withRelease, f3]
   · show (handlePacket d r (.pubRec id rs)).1.outbound.keys = _
@@ -98,7 +106,8 @@ theorem C03_release_after_packet (d : SessionData) (r : Runtime) (p : Recv) :
       | .pubRec id rs =>
         if d.awaits id .pubRec && reasonSuccess rs.rc && !r.packetTooLarge 5 &&
             decide (d.outbound.release.length < MAX_PENDING_RELEASE)
-        then d.outbound.release ++ [{ id := id, rc := RC_Success, state := .write 0 }] else d.outbound.release
+        then d.outbound.release ++ [{ id := id, rc := RC_Success, state := .write 0, rser := d.outbound.nextRser,
+                                      pser := d.outbound.ackedSer id .pubRec }] else d.outbound.release
       | .pubComp id _ => removeFirst (fun e => e.id == id) d.outbound.release
       | _ => d.outbound.release :=
   handlePacket_release d r p
@@ -203,7 +212,7 @@ theorem C03_publish_removed (d : SessionData) (r : Runtime) (id : Nat) (rs : Rea
     repeat' split
     all_goals first
       | exact this
-      | (show ((d.acked id .pubRec).withRelease id).outbound.nextSer = _; exact this)
+      | (show ((d.acked id .pubRec).withRelease id _).outbound.nextSer = _; exact this)
 
 /-- …and whatever the program does afterwards — more publishes, acknowledgements, reconnects, replays —
 a packet whose serial has been handed out and is no longer retained is never retained again, so it can
